@@ -49,7 +49,7 @@ def focus_elements(tier):
                 pv += ('0400-W10', '0999-W52', '2019-W53')
             tv = (v1, v2, 'x')
         else:
-            pv, tv = vals, vals[1:7]
+            pv, tv = vals[:12] + vals[12::3], vals[1:7]
         for a, v in itertools.product(pv, pv):
             out.append(el('input', (('type', t), ('min', a), ('value', v))))
             if a is not None:
